@@ -251,6 +251,33 @@ macro_rules! range_row {
                     }
                 }
             }
+            if mode == 18 {
+                // an encoder that appends to words which are already there (documented use of `with_backend`): the queries
+                // must still describe what exporting returns. (No new draws: prefix and symbols are functions of choices
+                // made above.)
+                let prefix: Vec<$W> = (0..1 + via as usize % 3).map(|i| (kfrac + i * 77) as $W).collect();
+                let mut e2 = Enc::with_backend(prefix.clone());
+                for step in 0..=msg.len().min(3) {
+                    if step > 0 {
+                        let (sym, tab) = &msg[step - 1];
+                        let r = with_prec!(tab.sel, $plist, |M| e2.encode_symbol(*sym, M::new(tab)));
+                        vassume!(ctx, r.is_ok(), "foreign:C02/encode_failed");
+                    }
+                    let ex = export(&e2);
+                    vcheck!(
+                        e2.num_words() == ex.len() && e2.num_bits() == wbits * ex.len() && e2.is_empty() == ex.is_empty(),
+                        "C18/range_sizes_on_prefilled_backend",
+                        "encoder created with_backend({}) after {} symbols: num_words()={} num_bits()={} is_empty()={} but the export is {}",
+                        hexwords(&prefix),
+                        step,
+                        e2.num_words(),
+                        e2.num_bits(),
+                        e2.is_empty(),
+                        hexwords(&ex)
+                    );
+                }
+                ctx.label("size_queries_on_prefilled_backend");
+            }
             let n = msg.len();
             let sealed_inverted = matches!(situation(&enc), EncoderSituation::Inverted(..));
             ctx.label_if(sealed_inverted, "sealed_while_inverted");
